@@ -178,11 +178,17 @@ class StateMachineMetaclass(type):
                 cls.add_event(event=Event(id=event.id, name=event.name))
 
     def add_from_attributes(cls, attrs):  # noqa: C901
+        # States first: an event may refer to every state of the machine (`from_.any()`),
+        # including the ones declared after it in the class body.
         for key, value in attrs.items():
             if isinstance(value, States):
                 cls._add_states_from_dict(value)
             if isinstance(value, State):
                 cls.add_state(key, value)
+
+        for key, value in attrs.items():
+            if isinstance(value, (States, State)):
+                continue
             elif isinstance(value, (Transition, TransitionList)):
                 cls.add_event(event=Event(transitions=value, id=key, name=key))
             elif isinstance(value, (Event,)):
